@@ -6,6 +6,22 @@
 
 package py
 
+// The most items (or bytes) a repeated sequence may have
+const maxRepeatLength = 1 << 40
+
+// Returns the length of a sequence of length m repeated count times
+//
+// Raises MemoryError if the result could not be made
+func repeatLength(m int, count Int) (int, error) {
+	if count <= 0 || m == 0 {
+		return 0, nil
+	}
+	if count > maxRepeatLength || int64(count) > int64(maxRepeatLength/m) {
+		return 0, ExceptionNewf(MemoryError, "repeated sequence is too long")
+	}
+	return int(count) * m, nil
+}
+
 // Converts a sequence object v into a Tuple
 func SequenceTuple(v Object) (Tuple, error) {
 	switch x := v.(type) {
